@@ -108,7 +108,7 @@ def cache_dir(name=None):
         # keep the cache small: drop all but the 3 most recent other keys
         try:
             others = sorted((os.path.getmtime(os.path.join(CACHE_ROOT, x)), x) for x in os.listdir(CACHE_ROOT)
-                            if x != tree_key() and not x.startswith('asm-'))
+                            if x != tree_key() and not x.startswith(('asm-', 'asmobj-')))
             asms = sorted((os.path.getmtime(os.path.join(CACHE_ROOT, x)), x) for x in os.listdir(CACHE_ROOT) if x.startswith('asm-'))
             for _, x in asms[:-4]:
                 shutil.rmtree(os.path.join(CACHE_ROOT, x), ignore_errors=True)
